@@ -181,7 +181,7 @@ def typecheck_layer(ctx):
                                       {"text": text, "backend": bname, "literal_kind": kind, "error": repr(e)[:150], "check": "typecheck"})
 
 
-def history_layer(ctx):
+def history_layer(ctx, stride=1):
     """serial, ONE process: all terms with <=2 constructors of every type plus the k=3 concat/substring terms (string and list
     flavours have the same outer shape), forward and then in reverse order - inference must not depend on what was inferred before"""
     en = enum()
@@ -189,11 +189,11 @@ def history_layer(ctx):
     for ty in TYPES:
         seq += [(t, ty) for t in en.terms(ty, 1)]
     for ty in (S, "LX", LI):        # the argument-derived return types (concat, substring) live here
-        seq += [(t, ty) for t in en.terms(ty, 2)]
+        seq += [(t, ty) for i, t in enumerate(en.terms(ty, 2)) if i % stride == 0]
     for ty in (S, "LX"):
         for si, sig in enumerate(en.sigs):
             if sig.ret == ty and sig.name.split(":")[0] in ("concat", "substring", "substring2", "substring3"):
-                seq += [(t, ty) for t in en.apply(sig, 3)]
+                seq += [(t, ty) for i, t in enumerate(en.apply(sig, 3)) if i % (stride * 4) == 0 or stride == 1]
     # interleave the string and list flavours so that equal outer shapes meet in both orders
     seq.sort(key=lambda it: (to_odata(it[0]).split("(")[0], len(to_odata(it[0])), it[1]))
     for t, ty in seq + seq[::-1]:
@@ -216,7 +216,7 @@ def run(ctx):
             units = [(ty, k, si, split) for si, split in en.work_units(ty, k)]
             ctx.pmap(_unit, units)
     ctx.layer("infer_type", k_max=kmax, terms=int(ctx.counts["states"]), builtin_functions=33, exhaustive=True)
-    nh = history_layer(ctx)
+    nh = history_layer(ctx, stride=5 if ctx.quick else 1)
     ctx.layer("history-forward-reverse", terms=nh, exhaustive=True)
     typecheck_layer(ctx)
     ctx.layer("typecheck", functions=3, positions=2, literal_kinds=len(LITERALS), backends=4, exhaustive=True)
